@@ -84,6 +84,11 @@ CLAIMED["C01"] = dict(
     text="Corpora of 1..4 (thorough 8) sentences over all tree shapes and hostile alphabets are written by independent encoders in export v3/v4 (headers, comments, secondary-edge columns, tabs or blanks, shuffled constituent lines, arbitrary numbering), brackets (arbitrary whitespace at every optional position, empty or labelled root, several sentences per line, material outside groups, empty POS), discobrackets and TIGER-XML (permuted attributes / nt / edge order, arbitrary ids, secedge noise, id styles, two encodings), plain or gzip, and read back with drawn reader options; the reader must yield exactly one well-formed tree per sentence, in order, equal to the model after an independently written expectation function of the options (gf_split, gf_separator, replace_parens, continuous, brackets_firstid, brackets_emptypos), and print nothing under quiet. Every string over {( ) blank a b} up to length 7 (thorough 9), with and without brackets_emptypos, is given to the bracket reader and to a hand-written recogniser: same trees, ValueError exactly for ill-formed input (including a group still open at end of input).",
     note="Trusted: encoders in vlib/codecs_tree.py, the recogniser and expectation functions in checks/C01.py. Not generated: values the formats cannot carry (see ASSUMPTIONS in the evidence). disco_reordered is only checked structurally; gf_split with a non-default separator only on labels without co-index.",
     ref="DESIGN.md section 2, C01")
+CLAIMED["C09"] = dict(
+    tech="Hypothesis treebank grammars (raw and binarized in every mode) written in PMCFG/RCG/LoPar and decoded by independent decoders (round trip); differential with the repository's own RCG reader; CLI subprocess incl. grammar files as input",
+    text="Grammars and lexicons from random treebanks (counts > 1, fan-out > 1, shared linearization sequences, ambiguous / capitalised / non-ASCII words), raw or binarized left-to-right / optimal, deterministic or Markovized, are written by grammaroutput.pmcfg / rcg / lopar with and without lex_in_grammar in utf-8 and latin-1. Independent decoders must recover exactly the rules, linearizations, summed counts and word/tag counts; RCG files are additionally re-read with grammarinput.rcg; LoPar auxiliary files must list exactly the start symbols with their counts and the tag counts split by capitalisation; a non-context-free grammar must be refused without leaving files. The same through `treetools grammar` on export files, and with a written RCG grammar as the command's input.",
+    note="Trusted: decoders in vlib/codecs_grammar.py; the in-memory grammar comes from the repository's extract/binarize (C06-C08). Fan-outs >= 10 (two-digit arity suffixes) are out of bounds.",
+    ref="DESIGN.md section 2, C09")
 PENDING_REASON = "check not built yet in this round (planned, see DESIGN.md section 6); not claimed until it is quiet on the unchanged tree"
 
 
